@@ -44,7 +44,13 @@ def assert_repo_import():
 def _work(args):
     # each chunk of runs executes in a child forked from this worker, which itself never executes a run:
     # a chunk starts from the process state of a fresh interpreter (kernel.isolated)
-    return kernel.isolated(_work_chunk, args)
+    try:
+        return kernel.isolated(_work_chunk, args)
+    except kernel.HarnessError as e:
+        prop, tier, base_seed, start, count, nsamples = args
+        return {"start": start, "count": 0, "steps": 0, "digests": [], "nontrivial": [], "counters": Counter(), "transitions": set(), "states": set(),
+                "known": Counter(), "known_what": {}, "violation": None, "samples": [], "resyncs": 0,
+                "harness_error": {"run_index": start, "seed": None, "error": f"chunk of runs {start}..{start + count - 1} could not be executed: {e}", "ops": []}}
 
 
 def _work_chunk(args):
@@ -469,4 +475,13 @@ def main(argv):
 
 
 if __name__ == "__main__":
-    main(sys.argv)
+    try:
+        main(sys.argv)
+    except SystemExit:
+        raise
+    except BaseException as e:  # noqa: BLE001 - anything unexpected is harness trouble (exit 2), never a verdict
+        import traceback
+
+        traceback.print_exc()
+        print(f"HARNESS-ERROR: {type(e).__name__}: {e}")
+        sys.exit(2)
